@@ -476,6 +476,12 @@ STACK_DIR = {'i64': 'eval_i64', 'f64': 'eval_f64', 'number': 'eval_number',
 def unit_def(unit):
     """-> dict(files=[(path, items|None)], contracts, rewrites=[...])"""
     stack, part = unit.split('-')
+    if part == 'agree':
+        # spec-only unit (C15): the Node / Number datatypes of two evaluators, each wrapped in its own module, and the
+        # specification vocabularies of both; no executable function of /repo
+        files = [('src/eval_i64/ast.rs', ['enum Node']), ('src/eval_number/number.rs', ['enum Number']), ('src/eval_number/ast.rs', ['enum Node'])]
+        return dict(stack=stack, part=part, files=files, contracts=os.path.join(VERIF, 'contracts', unit + '.vspec'),
+                    wrap=['isrc', 'nsrc', 'nsrc'])
     d = 'src/' + STACK_DIR[stack]
     if part == 'core':
         files = [('src/utils/operator_category.rs', None), ('src/utils/parse_error.rs', ['enum ParseError']),
@@ -551,10 +557,15 @@ def extract(unit, repo, out_path, features=None, focus=None):
     text += '\n'.join(con.prelude) + '\n'
     src_start = len(text)
     wanted = {}
-    for chunk, (rel, sink) in zip(chunks, chunk_meta):
+    wrap = ud.get('wrap')
+    for k, (chunk, (rel, sink)) in enumerate(zip(chunks, chunk_meta)):
         for key, info in sink.items():
             wanted[key] = (rel, info)
+        if wrap and (k == 0 or wrap[k] != wrap[k - 1]):
+            text += 'pub mod %s {\nuse super::*;\n' % wrap[k]
         text += chunk + '\n'
+        if wrap and (k == len(chunks) - 1 or wrap[k] != wrap[k + 1]):
+            text += '} // mod %s\n' % wrap[k]
     post_start = len(text)
     text += '\n'.join(con.postlude) + '\n'
     text += '} // verus!\nfn main() {}\n'
@@ -588,6 +599,12 @@ def extract(unit, repo, out_path, features=None, focus=None):
                                                line_end=ln(src_start + ia['body_end'])))
                 e['arms'].append(ent)
         fn_ranges[key] = e
+    if ud['part'] == 'agree':
+        # spec-only unit: its obligations are the lemmas of the postlude (the theorem and the steps it is built from)
+        post = text[post_start:]
+        for m in re.finditer(r'proof fn (lemma_\w+)', post):
+            a, bo, bc = rsrc.find_fn(post, m.group(1))
+            fn_ranges[m.group(1)] = dict(file=os.path.relpath(ud['contracts'], VERIF), line_start=ln(post_start + a), line_end=ln(post_start + bc), arms=[])
     with open(out_path, 'w', encoding='utf-8') as f:
         f.write(text)
     csha = hashlib.sha256()
